@@ -168,7 +168,7 @@ def to_str_spec(v):
 
 # parameter kinds after the function/table itself: S string, I integer, OS/OI optional, * = any number of integers
 SIGS = {"sub": ["S", "I", "OI"], "byte": ["S", "OI", "OI"], "char": ["I*"], "len": ["S"], "reverse": ["S"], "upper": ["S"],
-        "lower": ["S"], "rep": ["S", "I", "OS"], "find": ["S", "S", "OI"],
+        "lower": ["S"], "rep": ["S", "I", "OS"], "find": ["S", "S", "OI"], "match": ["S", "S", "OI"], "gmatch": ["S", "S", "OI"],
         "insert": None, "remove": ["OI"], "move": ["I", "I", "I"], "unpack": ["OI", "OI"], "concat": ["OS", "OI", "OI"]}
 
 
@@ -410,6 +410,11 @@ def typed_string_cases(rng, ck):
         for pt in (b"", b"3", b".5", b"cd", b"%d"):
             for init in (None, 1, 3, -2, 9):
                 base.append(("find", (sv, pt, init)))
+                if pt in (b"3", b"cd"):
+                    # match / gmatch with a pattern without magic characters: the first match is the pattern itself, exactly
+                    # where plain find finds it (their init argument is parsed like find's)
+                    base.append(("match", (sv, pt, init)))
+                    base.append(("gmatch", (sv, pt, init)))
     for b, _ in NUM_STRS:
         for fn in ("len", "reverse", "upper"):
             base.append((fn, (b,)))
@@ -420,7 +425,7 @@ def typed_string_cases(rng, ck):
     for t in ((), (65,), (0, 255), (97, 98, 99)):
         base.append(("char", t))
     numof = dict(NUM_STRS)
-    out = []
+    out = [(fn, a) for fn, a in base if fn in ("match", "gmatch")]
 
     def emit(fn, raw):
         raw = list(raw)
@@ -468,7 +473,7 @@ def typed_string_cases(rng, ck):
                     emit(fn, a[:k] + [7] + a[k + 1:])
                 else:
                     emit(fn, a[:k] + [NIL] + a[k + 1:])
-        if fn != "find":
+        if fn != "find":          # (the harness appends the plain flag to find's arguments)
             full = [x if x is not None else NIL for x in (a + [None] * len(sig))[:len(sig)]]
             emit(fn, full + [b"surplus"])
             emit(fn, full + [NIL, 1, TBL])
@@ -672,7 +677,7 @@ def tab_feasible(c):
     L = c.get("len") if c["mode"] == "proxy" and c.get("len") is not None else len(c["t1"])
     if op == "move":
         f, e, t = a[0], a[1], a[2]
-        if f <= e and e - f > 300 and not (f == t and tab_same(c)):
+        if f <= e and e - f > 300:
             ok = (e - f + 1 <= MAXINT) and (t + (e - f) <= MAXINT)
             return not ok
     if op == "insert" and len(a) == 2 and isinstance(a[0], int):
@@ -814,7 +819,9 @@ def gen_sort_cases(tier, rng):
     # lt0 … ltnan answer with true VALUES that are not the boolean true (0, "", a table, the operand, a position, several
     # values, a function, NaN) and with false / nil / nothing at all: the manual's "returns true" is truthiness
     truthy = ["lt0", "ltstr", "lttab", "ltand", "ltfind", "ltmulti", "ltfun", "ltnan"]
-    cmps = ["none", "lt", "gt", "le", "true", "false", "nil", "mod3", "rand1", "rand7", "rand12345", "err1", "err2", "err5", "err17", "yield"] + truthy
+    # bad*: a comparator that is not a function (number, string, true, a callable table): refused whatever the table is
+    badcmp = ["bad42", "badstr", "badtrue", "badcall"]
+    cmps = ["none", "lt", "gt", "le", "true", "false", "nil", "mod3", "rand1", "rand7", "rand12345", "err1", "err2", "err5", "err17", "yield"] + truthy + badcmp
     vals = [3, 1, 2]
     for n in range(0, 6 if not thorough else 7):
         for perm in itertools.permutations(range(1, n + 1)):
@@ -847,6 +854,13 @@ def sort_predicates(c, g):
     fails = []
     if g["status"] != "done":
         return ["sort did not return: " + g["status"] + " " + g.get("raw", "")[:80]]
+    if c.get("cmp", "").startswith("bad"):
+        res = g["res"] or [None]
+        if res[0] is not False:
+            fails.append("a comparator that is not a function was accepted (%s)" % c["cmp"])
+        if any(g["c1"].get(k) != v for k, v in c["t1"].items()):
+            fails.append("table changed although the comparator was refused")
+        return fails
     L = tab_len(c, g)
     res = g["res"]
     ok = bool(res) and res[0] is True
@@ -1081,6 +1095,19 @@ def check_tables(ck, gvh, oracle, tier, corpus, tag="t"):
                     unpack_limit = True  # implementation limit on the number of results: recorded finding
         else:
             ck.count("tab:S-not-applicable:" + ("big-range" if sf[0] == "big" else "negative-length" if neglen else "injected-error"))
+        if s_ok and op == "move" and c["mode"] == "proxy" and gc[0] == "ok:" and not c.get("err") and not c.get("argerr"):
+            # "equivalent to the multiple assignment a2[t],··· = a1[f],···,a1[e]": through the metamethods, every source
+            # index is read and every destination index is assigned — also when source and destination coincide
+            am = tab_args_plain(c)
+            f_, e_, t_ = am[0], am[1], am[2]
+            if f_ <= e_:
+                dno = "1" if tab_same(c) else "2"
+                gets = {int(x.split(":")[1], 16) for x in g["log"] if x.startswith("g1:")}
+                sets = {int(x.split(":")[1], 16) for x in g["log"] if x.startswith("s" + dno + ":")}
+                if gets != set(range(f_, e_ + 1)) or sets != set(range(t_, t_ + e_ - f_ + 1)):
+                    s_ok = False
+                    sf = list(sf) + ["every index f..e read through __index, every index t..t+(e-f) assigned through __newindex"]
+                ck.count("tab:move:assignment-through-metamethods-checked")
         # --- Go vs IM (log only where there is one)
         im_ok = (gc[0], gc[1], gc[2]) == (imf[0], imf[1], imf[2]) and (c["mode"] == "plain" or gc[3] == imf[3])
         if c.get("argerr"):
@@ -1202,7 +1229,8 @@ def check_strings(ck, gvh, oracle, cases, tag="s"):
     cases = [scase(c) for c in cases]
     # Go gets the arguments as spelled (raw); the models get what the manual converts them to
     lines = [case_line("%s%d" % (tag, i), fn, list(raw if raw is not None else a)) for i, (fn, a, raw, bad) in enumerate(cases)]
-    olines = [(case_line("%s%d" % (tag, i), fn, list(a)) if not bad else None) for i, (fn, a, raw, bad) in enumerate(cases)]
+    olines = [(case_line("%s%d" % (tag, i), "find" if fn in ("match", "gmatch") else fn, list(a)) if not bad else None)
+              for i, (fn, a, raw, bad) in enumerate(cases)]
     go = run_go(gvh, lines)
     rc, mod, err = run_oracle(oracle, [l for l in olines if l is not None])
     if rc != 0 or len(mod) != sum(1 for l in olines if l is not None):
@@ -1222,6 +1250,10 @@ def check_strings(ck, gvh, oracle, cases, tag="s"):
         if m is None:
             continue
         im, s = m["IM"], m["S"]
+        if fn in ("match", "gmatch") and not bad:
+            # non-magic pattern: the match is the pattern where plain find finds it, nil otherwise
+            conv = lambda r: r if not r.startswith("ok:i") else "ok:" + arg(a[1])
+            im, s = conv(im), conv(s)
         ck.count("fn:" + fn)
         ck.count("outcome:" + g.split(":")[0] + (":" + g.split(":")[1] if g.startswith("err:") else ""))
         ck.case(lines[i].split(" ", 1)[1], nontrivial=(g not in ("ok:", "ok:s-", "ok:n")) or fn == "len")
